@@ -224,7 +224,33 @@ def cases(draw, backend):
     sch = standard_schema(backend)
     g = G(draw, backend)
     ds = dataset_text(sch)
-    level = draw(st.sampled_from(["event", "object", "object-where", "event-where"]))
+    level = draw(st.sampled_from(["event", "object", "object-where", "event-where", "plumbed"]))
+    if level == "plumbed":
+        # the sequence is computed by a first Select and handed to a second lambda: guard and partial operation then share ONE sequence node
+        sq, ms = g.seq("e")
+        seqtext = f"{sq}.Select(lambda f: f.{g.pick(ms)}())"
+        cols = []
+        for ci in range(draw(st.integers(1, 2))):
+            g.want = ["guarded", "unguarded", None][draw(st.integers(0, 2))]
+            gk = g.guard(["none", "ifexp", "ifexp-else", "and", "or", "ifexp"])
+            g.labels.add("plumbed-First:" + gk)
+            c0 = g.const()
+            val = "p.First()"
+            if gk == "none":
+                cols.append((val, None))
+            elif gk == "ifexp":
+                cols.append((f"({val} if p.Count() > 0 else {c0})", f"({val} if True else {c0})"))
+            elif gk == "ifexp-else":
+                cols.append((f"({c0} if p.Count() == 0 else {val})", f"({c0} if False else {val})"))
+            elif gk == "and":
+                cols.append((f"(p.Count() > 0 and {val} > {c0})", f"(True and {val} > {c0})"))
+            else:
+                cols.append((f"(p.Count() == 0 or {val} > {c0})", f"(False or {val} > {c0})"))
+        body = lambda xs: "(" + ", ".join(xs) + ("," if len(xs) == 1 else "") + ")"
+        text = f"Select(Select({ds}, lambda e: {seqtext}), lambda p: {body([c[0] for c in cols])})"
+        variant = f"Select(Select({ds}, lambda e: {seqtext}), lambda p: {body([c[1] or c[0] for c in cols])})"
+        evs = draw(events_strategy(sch, g.uses, n_min=5, n_max=8, null_links=True))
+        return {"backend": backend, "text": text, "variant": variant if variant != text else None, "evs": evs, "labels": sorted(g.labels) + ["level=" + level]}
     ncols = draw(st.integers(1, 3))
     cols = []
     ncols = max(ncols, 2) if draw(st.integers(0, 3)) > 0 else ncols
